@@ -127,8 +127,30 @@ def run(ctx):
                   "{k: v / mean(D.values()) for k, v in D.items()}", f"normalised result is {T.show(T.alpha(ret))[:200]}")
 
 
+    ctx.clause("read_myosin hands the chosen interface list and every option to get_intensities in the right slots")
+    rm = repo.func(f"{MY}.read_myosin")
+    ctx.touch(rm)
+    srm = sym.summarize(repo, rm.qualname)
+    calls = [e for e in srm.calls() if e.target == q.qualname]
+    okf = False
+    if len(calls) == 1 and len(rm.params) >= 5:
+        e = calls[0]
+        frame, tiff, integ_, norm_, lay_ = (T.sym(p) for p in rm.params[:5])
+        use_all = ("opt", "use_all", T.FALSE)
+        edges = T.phi(use_all, T.attr(frame, "big_edges_list"), T.attr(frame, "internal_big_edges"))
+        img = T.call("PIL.Image.open", (tiff,))
+        bound = dict(zip(P, e.args))
+        bound.update({k: v for k, v in e.kw if k != "**"})
+        okf = bound.get(P[0]) == edges and bound.get(P[1]) == img and bound.get(P[2]) == integ_ and bound.get(P[3]) == norm_ and bound.get(P[4]) == lay_ \
+            and any(k == "**" for k, _ in e.kw)
+    ctx.check(okf, "ALIGN", f"{rm.qualname} / ALIGN / (interfaces, image, integrate, normalize, layers, **kwargs) forwarded slot by slot", ctx.where(rm),
+              "internal interfaces unless use_all; options in their own slots", "read_myosin does not forward its interface list / options to the matching parameters of get_intensities")
+
+
 _P = "forsys/myosin.py"
 PINNED = [
+    ("read_myosin swaps integrate and normalize", _P, "                           image,\n                           integrate,\n                           normalize,\n                           layers,", "                           image,\n                           normalize,\n                           integrate,\n                           layers,"),
+    ("read_myosin defaults to all interfaces", _P, '    if kwargs.get("use_all", False):', '    if kwargs.get("use_all", True):'),
     ("F10 reintroduced: key by list.index", _P, "        key_to_use = be_id\n", "        key_to_use = big_edges.index(big_edge)\n"),
     ("window misses the last row/column", _P, "layer_range = np.arange(-layers, layers + 1)", "layer_range = np.arange(-layers, layers)"),
     ("window offsets both added to x", _P, "xy_pixel = (position[0] + ii, position[1] + kk)", "xy_pixel = (position[0] + ii, position[0] + kk)"),
